@@ -83,3 +83,6 @@ package keeper
 //@       DidBalances[old(Order[orderId].Owner)].Balance.Amount == (old(has(DidBalances, Order[orderId].Owner)) ? old(DidBalances[Order[orderId].Owner].Balance.Amount) : 0) + refundCoin.Amount
 //@       && bal(moduleAddr("did"), refundCoin.Denom) == old(bal(moduleAddr("did"), refundCoin.Denom)) + refundCoin.Amount
 //@       && bal(moduleAddr("order"), refundCoin.Denom) == old(bal(moduleAddr("order"), refundCoin.Denom)) - refundCoin.Amount
+//@   ensures [C06.terminate.repinv] has(Order, orderId) || old(has(Order, orderId)) ==> (has(DidBalances, old(Order[orderId].Owner)) ==> DidBalances[old(Order[orderId].Owner)].Did == old(Order[orderId].Owner))
+//@   ensures [C06.terminate.untouched] !old(has(Order, orderId)) ==> DidBalances[old(Order[orderId].Owner)] == old(DidBalances[Order[orderId].Owner]) && (has(DidBalances, old(Order[orderId].Owner)) <==> old(has(DidBalances, Order[orderId].Owner)))
+//@       && !has(Order, orderId) && err != nil
